@@ -156,6 +156,17 @@ def render_block(stmts, em):
             em.code("%s: [fn(int) -> int...] = [%s]" % (s[1], ", ".join(s[2])))
         elif k == "isclosure":
             em.code("print %s.is_closure()" % s[1])
+        elif k == "mapcall":
+            em.code("print tbl.map(%s)" % s[1])
+        elif k == "filtcall":
+            if s[3] == 0:
+                # predicate writes a module-level variable through `modify`
+                em.code("%s = fn(q: int) -> bool {\n\tmodify %s = ((%s + q) %% 97)\n\treturn (%s(q) %% 2) == 0\n}" % (s[1], s[4], s[4], s[2]))
+            else:
+                # predicate made by a factory whose frame is gone when filter calls it
+                em.code("%s_mk = fn(t: int) -> fn(int) -> bool {\n\treturn fn(q: int) -> bool {\n\t\treturn ((%s(q) + t) %% 2) == 0\n\t}\n}" % (s[1], s[2]))
+                em.code("%s = %s_mk(%d)" % (s[1], s[1], s[5]))
+            em.code("print tbl.filter(%s)" % s[1])
         else:
             raise ValueError(s)
 
@@ -379,6 +390,22 @@ class Model:
         elif k == "isclosure":
             f = fr.cell(s[1]).v
             self.out.append("true" if f.captures else "false")
+        elif k == "mapcall":
+            f = fr.cell(s[1]).v
+            self.out.append(fmt_value([self.call(f, [x]) for x in list(fr.cell("tbl").v)], True))
+        elif k == "filtcall":
+            f = fr.cell(s[2]).v
+            res = []
+            for x in list(fr.cell("tbl").v):
+                if s[3] == 0:
+                    c = fr.cell(s[4])
+                    c.v = (c.v + x) % 97
+                    keep = self.call(f, [x]) % 2 == 0
+                else:
+                    keep = (self.call(f, [x]) + s[5]) % 2 == 0
+                if keep:
+                    res.append(x)
+            self.out.append(fmt_value(res, True))
         else:
             raise ValueError(s)
 
@@ -465,6 +492,12 @@ def free_names(params, body):
                 continue
             elif k == "retfn":
                 used.add(s[1])
+            elif k == "mapcall":
+                used.update(["tbl", s[1]])
+            elif k == "filtcall":
+                used.update(["tbl", s[2]])
+                if s[3] == 0:
+                    used.add(s[4])
             elif k == "loopmake":
                 used.add(s[1])
                 names_in_expr(s[5], used)
@@ -792,7 +825,7 @@ def generate(rng, max_ops=12):
         ints = g.of_type(top, "int")
         choices = [("printvar", 2)]
         if fns:
-            choices += [("call", 8), ("isclosure", 1), ("mklist", 1)]
+            choices += [("call", 8), ("isclosure", 1), ("mklist", 1), ("mapcall", 2), ("filtcall", 2)]
         if ints:
             choices.append(("assign", 4))
         if factories:
@@ -847,6 +880,11 @@ def generate(rng, max_ops=12):
             top.own[n] = "fn1"
         elif k == "isclosure":
             prog.append(["isclosure", rng.choice(fns + ["idf"])])
+        elif k == "mapcall":
+            prog.append(["mapcall", rng.choice(fns)])
+        elif k == "filtcall":
+            variant = 0 if (ints and rng.chance(1, 2)) else 1
+            prog.append(["filtcall", g.name("pr"), rng.choice(fns), variant, rng.choice(ints) if ints else None, rng.range(0, 3)])
         elif k == "mklist":
             n = g.name("l")
             prog.append(["mklist", n, [rng.choice(fns), rng.choice(fns)]])
